@@ -15,6 +15,7 @@ import (
 	"verifharness/props/c07"
 	"verifharness/props/c08"
 	"verifharness/props/c13"
+	"verifharness/props/c15"
 	"verifharness/props/c16"
 	"verifharness/props/c17"
 )
@@ -26,6 +27,7 @@ var registry = map[string]func() fw.Prop{
 	"C07": func() fw.Prop { return c07.Prop{} },
 	"C08": func() fw.Prop { return c08.Prop{} },
 	"C13": func() fw.Prop { return c13.Prop{} },
+	"C15": func() fw.Prop { return c15.Prop{} },
 	"C16": func() fw.Prop { return c16.Prop{} },
 	"C17": func() fw.Prop { return c17.Prop{} },
 }
@@ -46,6 +48,11 @@ func main() {
 		}
 		return
 	}
+	if os.Args[1] == "c15child" {
+		c15.ChildMain(os.Args[2])
+		return
+	}
+	defer c15.Shutdown()
 	id := strings.ToUpper(os.Args[1])
 	fs := flag.NewFlagSet("corr", flag.ExitOnError)
 	seed := fs.Uint64("seed", 1, "")
@@ -71,6 +78,7 @@ func main() {
 	res, err := fw.Run(p, cfg)
 	if err != nil {
 		fmt.Fprintln(os.Stderr, "corr:", err)
+		c15.Shutdown()
 		os.Exit(3)
 	}
 	fmt.Printf("corr %s: programs=%d evaluations=%d distinct_nontrivial=%d divergences=%d wall=%.1fs\n",
